@@ -6,7 +6,8 @@
      unit   ::= ntp tparam* na (name type)*na nc const* ncl cls* nf func*
      stmts  ::= n stmt*n      stmt ::= L k token*k | B | K k token*k stmts
    Commands:
-     U unit          -> stmts(print_unit) | parse_unit(that) | norm_unit | wf_unit | stmts(print_unit(norm_unit)) | parse_unit(that)
+     U fixed unit    -> stmts(print_unit) | parse_unit(that) | norm_unit | wf_unit | stmts(print_unit(norm_unit)) | parse_unit(that) | stable_unit
+                        (fixed = 0/1: the variant of VisitFunction the tree under test implements)
      P stmts         -> parse_unit
      F cls nm k env*k fsig -> tokens(print_fsig) | parse_fsig | norm_fsig | wf_fsig *)
 open Decl_model
@@ -202,6 +203,11 @@ let () =
       (try
         (match next () with
          | "U" ->
+           let fixed = next_int () <> 0 in
+           let print_unit = print_unit fixed in
+           let norm_unit = norm_unit fixed in
+           let wf_unit = wf_unit fixed in
+           let stable_unit = stable_unit fixed in
            let u = read_unit () in
            let ss = print_unit u in
            out_stmts ss; bar ();
@@ -211,7 +217,8 @@ let () =
            out_bool (wf_unit u); bar ();
            let ss2 = print_unit nu in
            out_stmts ss2; bar ();
-           out_unit_opt (parse_unit ss2)
+           out_unit_opt (parse_unit ss2); bar ();
+           out_bool (stable_unit u)
          | "P" ->
            let ss = read_stmts () in
            out_unit_opt (parse_unit ss)
